@@ -112,10 +112,42 @@ class Impl:
                     r.close()
                     return Outcome("exc", AssertionError("facade returned an awaitable"), env.top)
         except Exception as e:
-            return Outcome("exc", e, self._obs())
+            CUR.env = None
+            return self._pure() or Outcome("exc", e, self._obs())
         finally:
             CUR.env = None
-        return Outcome("ok", None if discard else r, self._obs())
+        return self._pure() or Outcome("ok", None if discard else r, self._obs())
+
+    def _pure(self):
+        """Between any two operations a read-only part of the public API is used (instance and
+        class diagram, repr, listing events / states / transitions, allowed events, is_active):
+        it must run no callback and change nothing - whatever it changed shows up in the
+        comparison of the operations that follow."""
+        sm = self.sm
+        if sm is None or not PURE_QUERIES:
+            return None
+        self._npure = k = getattr(self, "_npure", -1) + 1
+        leak = _PureEnv()
+        CUR.env = leak
+        try:
+            if k == 0:
+                # the first pause of every instance draws the instance; the class is drawn (and
+                # everything else is asked once) when the class is first met in this process
+                qs = _QUERIES[:1] if id(type(sm)) in _SEEN_CLASSES else _QUERIES
+                _SEEN_CLASSES[id(type(sm))] = type(sm)
+            else:
+                qs = (_QUERIES[k % len(_QUERIES)],)
+            for q in qs:
+                try:
+                    q(sm)
+                except Exception:   # noqa: BLE001,S110 - what a query raises is not this oracle's business
+                    pass
+        finally:
+            CUR.env = None
+        if leak.ran:
+            return Outcome("exc", AssertionError(
+                f"a read-only query ran user callbacks: {leak.ran[:3]}"), self._obs())
+        return None
 
     def _obs(self):
         return self.env.flat if self.cfg.engine == "async" else self.env.top
@@ -235,6 +267,43 @@ class Impl:
 
 class _Plain:
     pass
+
+
+PURE_QUERIES = True
+_SEEN_CLASSES = {}
+
+
+class _PureEnv:
+    def __init__(self):
+        self.ran = []
+
+    def call(self, obj, name, args, kwargs):
+        self.ran.append(name)
+        return None
+
+    async def acall(self, obj, name, args, kwargs):
+        self.ran.append(name)
+        return None
+
+
+def _q_class_diagram(sm):
+    from statemachine.contrib.diagram import DotGraphMachine
+    return DotGraphMachine(type(sm))().to_string()
+
+
+_QUERIES = (
+    lambda sm: sm._graph().to_string(),
+    _q_class_diagram,
+    lambda sm: repr(sm),
+    lambda sm: [str(e) for e in sm.allowed_events],
+    lambda sm: [(s.id, getattr(sm, s.id).is_active) for s in sm.states],
+    lambda sm: [str(e) for e in sm.events],
+    lambda sm: [(t.source.id, t.target.id, t.event, t.internal, list(t.cond), list(t.unless))
+                for s in sm.states for t in s.transitions],
+    lambda sm: (sm.current_state, sm.current_state_value, sm.model),
+    lambda sm: [(s.id, s.value, s.name, s.initial, s.final, repr(s)) for s in type(sm).states],
+    lambda sm: sorted(type(sm).states_map),
+)
 
 
 _DECOY = []
